@@ -176,9 +176,16 @@ Definition entry_uses_idx (e : N) : bool :=
 
 (* class of a failing case, for known findings: a limit above what the Go runtime can allocate at
    all is a class of its own *)
+Definition payload_stream (input : val) : bytes :=
+  match br_open (hdr_lookup (vL (vnth 4 input))) (mkropts false two63 two63 true) (vB (vnth 2 input)) with
+  | Ok (_, _, s, _, _) => s
+  | Err _ => []
+  end.
 Definition case_class (input : val) : string :=
   let o := v_ropts_t (vnth 1 input) in
   if (go_max_alloc <? o_maxh o) || (go_max_alloc <? o_maxs o) then "limit-above-runtime-max"
+  else if (let s := payload_stream input in has_short_section (S (length s)) s)
+  then "section-shorter-than-its-cid"
   else "entry-" ++ (match vN (vnth 0 input) with
                     | 0 => "br" | 1 => "carv1" | 2 => "root" | 3 => "rootload" | 4 => "version"
                     | 5 => "v2hdr" | 6 => "idxread" | 7 => "resume" | 8 => "brskip" | 9 => "reader"
@@ -186,6 +193,7 @@ Definition case_class (input : val) : string :=
                     | 14 => "replaceroots" | 15 => "extract" | 16 => "resume-huge" | 17 => "idxread-big"
                     | _ => "other" end)%N.
 
+Definition failv (clause : string) (input : val) : val := VL [VT "FAIL"; VT clause; VT (case_class input)].
 Definition prop_total (input obs : val) : val :=
   let e := vN (vnth 0 input) in
   let o := v_ropts_t (vnth 1 input) in
@@ -194,14 +202,13 @@ Definition prop_total (input obs : val) : val :=
   let meas := vN (vnth 7 input) in
   let outcome := vnth 0 obs in
   let lim := vnth 1 obs in
-  let cls := case_class input in
-  if is_tagv outcome "PANIC" then VL [VT "FAIL"; VT "panic"; VT cls]
-  else if is_tagv outcome "TIMEOUT" then VL [VT "FAIL"; VT "timeout"; VT cls]
-  else if is_tagv outcome "KILLED" then VL [VT "FAIL"; VT "killed"; VT cls]
+  if is_tagv outcome "PANIC" then failv "panic" input
+  else if is_tagv outcome "TIMEOUT" then failv "timeout" input
+  else if is_tagv outcome "KILLED" then failv "killed" input
   else if alloc_budget (o_maxh o) (o_maxs o) (entry_uses_cfr e) (entry_uses_idx e) (blen file) <? meas
-  then VL [VT "FAIL"; VT "alloc-bound"; VT cls]
+  then failv "alloc-bound" input
   else if is_tagv (vnth 0 expect) "exact" && negb (is_tagv lim "-")
-  then VL [VT "FAIL"; VT "limit-exact-rejected"; VT cls]
+  then failv "limit-exact-rejected" input
   else if is_tagv (vnth 0 expect) "over" && negb (is_tagv lim (spec_lim expect))
-  then VL [VT "FAIL"; VT "limit-over-not-rejected"; VT cls]
+  then failv "limit-over-not-rejected" input
   else VT "ok".
